@@ -243,8 +243,8 @@ def spec_nest(shape: dict, S: list):
                     return None
                 inner = spec_dot(ports, sub)
             else:
-                if not wf_cart(ports, sub):
-                    return None
+                if not wf_cart(ports, sub) or it[1] != 1:
+                    return None  # depth >= 2: the members of a schema carry different tags — correspondence only
                 inner = spec_cart(it[1], ports, sub)
             # a schema is filed under get_tag(members) = its deepest tag; every member of a dot schema has the same tag,
             # the members of a cartesian schema have tags of equal length: the first one is taken
@@ -543,7 +543,16 @@ class C02(Property):
             else:
                 inner_ports = [0, 1]
                 others = [2] if rng.random() < 0.7 else [2, 3]
-                if rng.random() < 0.5:
+                mode = rng.random()
+                if mode < 0.12:
+                    # correspondence only: non-well-formed streams, inner cartesian depth 2, three inner ports
+                    inner_ports = [0, 1] if rng.random() < 0.6 else [0, 1, 4]
+                    inner = rng.choice([["d", inner_ports], ["c", 1, inner_ports], ["c", 2, inner_ports]])
+                    S = gen_dot_stream(rng, 0, False, ports=inner_ports + others)
+                elif mode < 0.2:
+                    inner = ["c", 2, inner_ports]
+                    S = gen_cart_stream(rng, 0, 2, True, ports=inner_ports) + [(q, "0", 900 + q) for q in others]
+                elif mode < 0.6:
                     inner = ["d", inner_ports]
                     S = gen_dot_stream(rng, 0, True, ports=inner_ports + others)
                 else:
@@ -561,6 +570,8 @@ class C02(Property):
                 items = [inner] + others
                 if rng.random() < 0.3:
                     items = others + [inner]
+                elif rng.random() < 0.15 and len(others) == 2:
+                    items = [others[0], inner, others[1]]
                 shape = {"kind": "nest", "items": items}
                 if len(S) > 7:
                     S = S[:7]
